@@ -32,6 +32,22 @@ NEEDS = {
  "C17_1": ("C17", "only the first contiguous run of a kind's sv::msg_attr lines is forwarded", "two sv::msg_attr lines of one kind separated by another kind's line"),
  "C17_2": ("C17", "sv::attr written above the sv::msg line is silently discarded", "`#[sv::attr(..)]` preceding `#[sv::msg(..)]` on a handler"),
  "C20_1": ("C20", "Remote's JsonSchema gets a schema_id() built from type_name::<Contract>(): definitions named Remote, Remote2, ... depending on the parameter", "one root schema holding two Remote handles with different type parameters"),
+ "C02b_1": ("C02 (multitest path)", "multitest instantiate-with-salt body rebuilt on InstantiateBuilder without .with_funds(..): funds dropped", "features mt + cosmwasm_1_2, .with_salt(..) together with non-empty .with_funds(..) on the generated multitest proxy (contract/mt.rs, behind cw_multi_test: outside every claimed clause)"),
+ "C02b_2": ("C02 (also C11)", "cfg-gated arms of IntoMsg::into_msg regrouped: CosmosMsg::Distribution ends up under `stargate` instead of `staking`", "default features (staking without stargate) and a bridged handler returning a distribution message"),
+ "C03b_1": ("C03 (also C05)", "the `const _` overlap check is emitted only when the contract declares more than one interface", "a contract with exactly one interface whose own message shares a name with an interface message"),
+ "C03b_2": ("C03", "unsupported-message error text rebuilt with supported[1..] / supported[0]: panics when the kind has no message at all", "a Contract<K>Msg of a kind for which neither the contract nor its interfaces define a message, given a one-key object (the hand-written Deserialize: outside the covered clauses)"),
+ "C04b_1": ("C04 (multitest path)", "multitest Contract impl: sudo and migrate bodies swapped when only migrate is overridden", "override of migrate without override of sudo, through cw_multi_test (contract/mt.rs: outside every claimed clause)"),
+ "C04b_2": ("C04 (multitest path)", "multitest Contract impl: instantiate and execute bodies swapped when only instantiate is overridden", "override of instantiate only, through cw_multi_test (contract/mt.rs: outside every claimed clause)"),
+ "C06b_1": ("C06", "guard of the optional reply entry point copy-pasted from migrate: checks MsgType::Migrate", "a reply handler plus an override of migrate (reply disappears) or of reply (generated reply stays)"),
+ "C06b_2": ("C06", "generated sudo entry point takes the contract-only SudoMsg (found independently of C06_2)", "an interface sudo message through entry_points::sudo"),
+ "C07b_1": ("C07", "pass-through arm takes the answer's data from msg_responses[0].value instead of data", "error-only handler name, Ok result, data differing from the first message response (or msg_responses empty)"),
+ "C07b_2": ("C07", "failure-outcome arms build the context from (deps, env): gas_used is 0 on failure", "an error or always method, a failed sub-message, non-zero gas_used"),
+ "C08b_1": ("C08", "builder passes a lone typed (not raw-marked) Binary payload without JSON-encoding it", "exactly one payload parameter of type Binary without #[sv::payload(raw)] (payload signature outside the covered cells: CBMC does not finish the base64 encoder)"),
+ "C08b_2": ("C08", "SubMsg receiver keeps a reply_on it already carries unless it is Never", "a SubMsg receiver built with reply_on_success / reply_on_error / reply_always, or chained builders"),
+ "C09b_1": ("C09", "`instantiate, opt` treats missing data as an error", "mode exactly `instantiate, opt` and data absent"),
+ "C09b_2": ("C09", "typed `opt` turns an undecodable envelope into None", "mode exactly `opt` and data present but not an envelope (cell outside the covered ones: reaches from_json, CBMC does not finish)"),
+ "C11b_1": ("C11", "bridged sudo arm gets a `cheap path` for responses without sub-messages that forgets the events", "custom(msg) interface, sudo kind, response with events and no sub-messages"),
+ "C11b_2": ("C11", "CosmosMsg::Distribution arm under the wrong feature gate (found independently of C02b_2)", "default features and a distribution message"),
  "C20_2": ("C20", "Remote.addr deserialised as a borrowed &'de str: owned strings (escapes) are rejected", "an address containing a character that JSON escapes; at the serde data-model level: any format handing out non-borrowed strings"),
 }
 
